@@ -2,17 +2,17 @@ SPECIFICATION CSpecByGen
 CONSTANTS
   Forms <- CAllForms
   Indents <- CInd012
-  MaxIdAnns = 2
-  MaxParams = 2
-  MaxParamAnns = 2
-  MaxPartLines = 2
-  MaxDescLines = 2
-  MaxParas = 2
-  MaxTags = 2
+  MaxIdAnns = 3
+  MaxParams = 3
+  MaxParamAnns = 3
+  MaxPartLines = 3
+  MaxDescLines = 3
+  MaxParas = 3
+  MaxTags = 4
   TagNames <- CTagsAll
-  MaxTagAnns = 2
+  MaxTagAnns = 3
   MaxCont = 2
-  MaxNoise = 1
+  MaxNoise = 2
   AtReturns = TRUE
   FaultKinds <- CNoFaults
   MaxFaults = 0
@@ -20,5 +20,3 @@ CONSTANTS
   Known <- CKnown
   StartLine = 1
 CHECK_DEADLOCK FALSE
-INVARIANT RoundTrip
-INVARIANT WriterFix
